@@ -206,4 +206,102 @@ let () =
       set s c
     | _ -> "badargs")
 
+(* ------------------------------------------------------------------ HC streams at the hash-chain levels 3..9 (Model/HcChainStream.v) *)
+let cctxs : (int, cctx) Hashtbl.t = Hashtbl.create 16
+let cattached : (int, int) Hashtbl.t = Hashtbl.create 16
+let cgetc sid = match Hashtbl.find_opt cctxs sid with Some c -> c | None -> cs_init
+
+(* digests of a table of n little-endian entries of w bytes: walk the map once (a PositiveMap key is read from its least
+   significant bit; Model.Mem.enc sends the index a > 0 to the positive 2a and 0 to 1) instead of n lookups *)
+let tab_digest (n : int) (w : int) (def : int) (m : mem) : string =
+  let b = Bytes.create (w * n) in
+  let put i v = if i >= 0 && i < n then for k = 0 to w - 1 do Bytes.set b (w*i+k) (Char.chr ((v lsr (8*k)) land 255)) done in
+  for i = 0 to n - 1 do put i def done;
+  let rec walk (t : Big_int_Z.big_int PositiveMap.tree) (acc : int) (depth : int) =
+    match t with
+    | PositiveMap.Leaf -> ()
+    | PositiveMap.Node (l, o, r) ->
+      (match o with
+       | Some v -> let key = acc lor (1 lsl depth) in
+         if key = 1 then put 0 (zi v) else if key land 1 = 0 then put (key lsr 1) (zi v)
+       | None -> ());
+      if depth < 40 then begin walk l acc (depth + 1); walk r (acc lor (1 lsl depth)) (depth + 1) end in
+  walk m 0 0;
+  Digest.to_hex (Digest.bytes b)
+let hash_digest (m : mem) = tab_digest 32768 4 0 m
+let chain_digest (c : ctab) = tab_digest 65536 2 (zi c.ct_def) c.ct_m
+
+let show_cctx (c : cctx) =
+  let k = c.cs_hs.hs_core in
+  Printf.sprintf "end=%s ps=%s ds=%s dl=%s ll=%s ntu=%s lvl=%s dirty=%d dctx=%s ht=%s ct=%s"
+    (zstr k.k_end) (zstr k.k_prefixStart) (zstr k.k_dictStart) (zstr k.k_dictLimit) (zstr k.k_lowLimit) (zstr k.k_ntu)
+    (zstr k.k_level) (if k.k_dirty then 1 else 0) (match c.cs_hs.hs_dctx with None -> "0" | Some _ -> "1")
+    (hash_digest k.k_h4) (chain_digest c.cs_chain)
+let show_cres ret consumed out c = Printf.sprintf "%s %s %s %s" (zstr ret) (zstr consumed) (show_bytes out) (show_cctx c)
+
+let crefresh sid =
+  let c = cgetc sid in
+  match c.cs_hs.hs_dctx, Hashtbl.find_opt cattached sid with
+  | Some _, Some did ->
+    let d = cgetc did in
+    let c' = { c with cs_hs = { c.cs_hs with hs_dctx = Some d.cs_hs.hs_core }; cs_dchain = d.cs_chain } in
+    Hashtbl.replace cctxs sid c'; c'
+  | _ -> c
+
+let cfinish s (r : csres option) =
+  match r with
+  | None -> "out"
+  | Some (CRes (ret, consumed, out, hw, c)) ->
+    Hashtbl.replace cctxs s c;
+    if c.cs_hs.hs_dctx = None then Hashtbl.remove cattached s;
+    show_cres ret consumed out c ^ " hw=" ^ zstr hw
+
+let () =
+  let set s c = Hashtbl.replace cctxs s c; show_cres (z 0) (z 0) [] c in
+  reg "reset" (function _ -> mem := empty_mem; Hashtbl.reset ctxs; Hashtbl.reset attached; Hashtbl.reset hctxs; Hashtbl.reset hattached;
+                Hashtbl.reset cctxs; Hashtbl.reset cattached; "ok");
+  reg "cinit" (function [sid] -> let s = ios sid in Hashtbl.remove cattached s; set s cs_init | _ -> "badargs");
+  reg "crs" (function [sid; l] -> let s = ios sid in Hashtbl.remove cattached s; set s (cs_resetStream (zs l)) | _ -> "badargs");
+  reg "crsf" (function [sid; l] -> let s = ios sid in let c = cs_resetFast (crefresh s) (zs l) in Hashtbl.remove cattached s; set s c | _ -> "badargs");
+  reg "clvl" (function [sid; l] -> let s = ios sid in set s (cs_setLevel (cgetc s) (zs l)) | _ -> "badargs");
+  reg "cld" (function [sid; a; n] ->
+      let s = ios sid in
+      (match cs_loadDict !mem (cgetc s) (zs a) (zs n) with
+       | None -> "out"
+       | Some (c, r) -> Hashtbl.replace cctxs s c; Hashtbl.remove cattached s; show_cres r (z 0) [] c)
+    | _ -> "badargs");
+  reg "catt" (function [sid; did] ->
+      let s = ios sid and d = ios did in
+      let c = cs_attach (cgetc s) (if d < 0 then None else Some (cgetc d)) in
+      if d >= 0 then Hashtbl.replace cattached s d else Hashtbl.remove cattached s;
+      set s c
+    | _ -> "badargs");
+  reg "ccont" (function [sid; a; n; cap] -> let s = ios sid in cfinish s (cs_continue !mem (crefresh s) (zs a) (zs n) (zs cap)) | _ -> "badargs");
+  reg "ccds" (function [sid; a; n; cap] -> let s = ios sid in cfinish s (cs_continue_destSize !mem (crefresh s) (zs a) (zs n) (zs cap)) | _ -> "badargs");
+  reg "csave" (function [sid; a; n] ->
+      let s = ios sid in
+      let ((m', c'), r) = cs_saveDict !mem (crefresh s) (zs a) (zs n) in
+      mem := m'; Hashtbl.replace cctxs s c';
+      if c'.cs_hs.hs_dctx = None then Hashtbl.remove cattached s;
+      let saved = load_list m' (zs a) r in
+      show_cres r (z 0) [] c' ^ " mem=" ^ Digest.to_hex (Digest.string (string_of_bytes saved))
+    | _ -> "badargs");
+  reg "cfr" (function [sid; a; n; cap; l] -> let s = ios sid in cfinish s (cs_fastReset !mem (crefresh s) (zs a) (zs n) (zs cap) (zs l)) | _ -> "badargs");
+  reg "cext" (function [sid; a; n; cap; l] -> let s = ios sid in Hashtbl.remove cattached s; cfinish s (cs_extState !mem (zs a) (zs n) (zs cap) (zs l)) | _ -> "badargs");
+  (* cimport sid end ps ds dl ll ntu lvl dirty <hashTable: 32768 LE U32 in hex><chainTable: 65536 LE U16 in hex> *)
+  reg "cimport" (function [sid; e; ps; ds; dl; ll; ntu; lvl; dirty; tab] ->
+      let s = ios sid in
+      let byte i = hexval tab.[2*i] * 16 + hexval tab.[2*i + 1] in
+      let word i = byte (4*i) + 256 * byte (4*i+1) + 65536 * byte (4*i+2) + 16777216 * byte (4*i+3) in
+      let half i = byte (131072 + 2*i) + 256 * byte (131072 + 2*i + 1) in
+      let rec fill m f n i = if i >= n then m else
+          let v = f i in fill (if v = 0 then m else store_list m (z i) [z v]) f n (i + 1) in
+      let ht = fill empty_mem word 32768 0 and ct = fill empty_mem half 65536 0 in
+      let k = { k_h4 = ht; k_h8 = empty_mem; k_end = zs e; k_prefixStart = zs ps; k_dictStart = zs ds; k_dictLimit = zs dl; k_lowLimit = zs ll;
+                k_ntu = zs ntu; k_level = zs lvl; k_dirty = (dirty = "1") } in
+      let old = cgetc s in
+      let c = { cs_hs = { hs_core = k; hs_dctx = old.cs_hs.hs_dctx }; cs_chain = { ct_m = ct; ct_def = z 0 }; cs_dchain = old.cs_dchain } in
+      set s c
+    | _ -> "badargs")
+
 let () = Common.main ()
